@@ -43,6 +43,10 @@ CHECKS = {
             "GenerateKeyset proved to produce, for all (master, index): the 60 keys at amounts 2^0..2^59 as the children H+0..H+59 of m/0'/0'/index' (private scalar and public point), with the given fee/active flag - the keyset is a function of seed and index; keyset id shape proved (\"00\" + 14 hex chars of a 32-byte digest), sorted concatenation bounded (bounded/keysetid); RotateKeyset: representation invariant (one active keyset, filed under its id) preserved, old keysets keep keys, fee and id, the stored row carries exactly (new id, old index + 1, requested fee, active), the old row is only deactivated; signBlindedMessages signs only under the active keyset id and refuses others; verifyProofs takes the key from the proof's own keyset; TransactionFees charges each proof its own keyset's fee (spec sum).",
             "Assumed: BIP32 derivation (hdkeychain) as an uninterpreted pure function, A-FLOAT (math.Pow(2, i) exact for i < 64). Bounded: sorted concatenation in DeriveKeysetId. Known finding (open): RotateKeyset crash window (C07). LoadMint's reconstruction loop is not under a functional contract.",
             "DESIGN.md §8 C09"),
+    "C10": (True,
+            "Over an abstract prime-order group (commutative group + module laws): BlindMessage = Y + rG with Y = h2c(secret), SignBlindedMessage = k*B', UnblindSignature = C' - rK, Verify <=> C = k*h2c(secret) proved from the secp256k1 calls the real functions make; lemmas (discharged every run): unblinding k(Y+rG) with K=kG gives kY for every r (bdhke.unblind), a different key gives a different point on a non-identity Y (bdhke.otherkey), DLEQ: R1 = sG - eA = pG and R2 = sB' - eC' = pB' for s = p + ek (dleq.r1/r2), completeness of the proof GenerateDLEQ makes (dleq.complete) also through the hex transport of (e,s) (dleq.complete.wire), re-blinding C + rA = k(Y + rG) (dleq.reblind). HashE proved = sha256 of the concatenated hex uncompressed points (loop invariant); GenerateDLEQ proved to return e = H(pG, pB', aG, C'), s = p + e*a for its nonce p; VerifyDLEQ proved <=> e = H(sG - eA, sB' - eC', A, C'); nut12.VerifyBlindSignatureDLEQ proved <=> everything parses and that equation holds on the parsed values; VerifyProofDLEQ re-blinds with r exactly as specified (call-site clause) and refuses proofs without r; VerifyProofsDLEQ: every proof with DLEQ verified under the key of its own amount (missing key = failure). Mint: signBlindedMessages proved to emit, for every output, C_ = hex(k*B') under the active key of the output's amount and (e,s) = hex of the GenerateDLEQ proof for exactly (k, B', C_). Wallet: constructProofs proved to verify every DLEQ against the keyset key of the signature's amount, the B_ it sent and the C_ it got, to keep (e,s) unchanged and add its own r, and to unblind with the same key and r.",
+            "Assumed: secp256k1 library contracts (abstract group), sha256/hex uninterpreted with inverse axioms, scalar serialisation canonical; dleq.complete* carry the explicit premise that the hash value round-trips through a scalar (fails with probability 2^-128). NOT decided: soundness of DLEQ against a cheating mint and single-field tamper evidence (random-oracle / collision arguments, not algebra); persistence of (e,s) through sqlite (bounded conformance of the store, see C15).",
+            "DESIGN.md §8 C10"),
     "C11": (True,
             "HashToCurve proved equal to the NUT-00 spec function h2c (domain separator, sha256, little-endian uint32 counter from 0, 02-prefix, first counter that parses; error only after all 2^16 counters failed) by a loop invariant over the counter search; NUT-13 DeriveKeysetPath / DeriveSecret / DeriveBlindingFactor proved equal to the paths m/129372'/0'/(int(id) mod (2^31-1))'/counter'/{0,1} over uninterpreted BIP32 derivation and big-endian decoding, incl. the machine arithmetic (uint64 modulus, uint32 truncation); keyset id: prefix and truncation proved, sorted concatenation bounded (bounded/keysetid); mint keyset path m/0'/0'/index'.",
             "Assumed: sha256, secp256k1 point parsing, BIP32 (hdkeychain), hex as uninterpreted functions with the stated axioms (A-LIB2); NUT-13 functions under the precondition that keyset ids are 8 bytes and counters < 2^31. Bounded: sorted concatenation in DeriveKeysetId.",
